@@ -155,11 +155,11 @@ Proof.
   - intros x y Hx Hy _ a _. rewrite (HX x Hx), (HX y Hy). reflexivity.
   - unfold Xabs, kept. cbn [filter fst snd]. destruct d as [d'|] eqn:Edd.
     + cbn [map fold_opt fold_left]. unfold fold_opt. cbn [fold_left]. rewrite fL_blank_basic by exact Ed. eexists. split; [reflexivity|].
-      apply (NS_basic U dn kp m _ (Some d') Hk); cbn [rn_actions rn_dec rn_cont init_node]; [apply basic_acts|reflexivity|reflexivity|].
+      apply (NS_basic U ueqb ustr dn kp m _ (Some d') Hk); cbn [rn_actions rn_dec rn_cont init_node]; [apply basic_acts|reflexivity|reflexivity|].
       intros d0 E0. injection E0 as <-. apply (Hdn d' _ (or_introl eq_refl)).
     + assert (En : nkeep U m && negb (cond_blank (@no_cond U)) = false) by (cbn; apply andb_false_r).
       cbn [e_cond]. rewrite En. cbn [map]. exists (init_node U m). split; [reflexivity|].
-      apply (NS_basic U dn kp m _ None Hk); cbn [rn_actions rn_dec rn_cont init_node]; [apply basic_acts|exact Ed|reflexivity|discriminate].
+      apply (NS_basic U ueqb ustr dn kp m _ None Hk); cbn [rn_actions rn_dec rn_cont init_node]; [apply basic_acts|exact Ed|reflexivity|discriminate].
 Qed.
 End Basic.
 
